@@ -507,15 +507,18 @@ class ThreadPool(object):
 
                 # Clean up thread if necessary
                 with self.__lock:
-                    extra_threads = self.__nb_threads - self.__nb_active_threads
+                    # Tasks which are not finished yet: queued, running, or
+                    # just taken from the queue by a worker which is not
+                    # counted as active yet
+                    unfinished_tasks = self._queue.unfinished_tasks
                     if (
                         self.__nb_threads > self._min_threads
-                        and extra_threads > self._queue.qsize()
+                        and self.__nb_threads > unfinished_tasks
                     ):
                         # No more work for this thread
-                        # if there are more non active_thread than task
-                        # and we're above the  minimum number of threads:
-                        # stop this one
+                        # if the other threads are enough to handle the
+                        # unfinished tasks and we're above the minimum number
+                        # of threads: stop this one
                         self.__nb_threads -= 1
 
                         # To avoid a race condition: decrease the number of
